@@ -120,14 +120,16 @@ def gen_coqproject():
         run(["coq_makefile", "-f", "_CoqProject", "-o", "Makefile"], cwd=COQ)
 
 
-def build_coq(timeout=2400):
-    """make the whole development (no-op when up to date). Returns (ok, log, failing_files)."""
-    with Lock("coq"):
-        factmsg = ""
+def build_coq(targets=None, timeout=2400):
+    """make the development, or only the given .vo targets and what they depend on
+    (no-op when up to date). Returns (ok, log, failing_files)."""
+    with Lock("coqproject"):
         gen_coqproject()
-        rc, out, dt = run(["make", "-k", "-j16"], cwd=COQ, timeout=timeout)
+    with Lock("coq"):
+        cmd = ["make", "-k", "-j16"] + list(targets or [])
+        rc, out, dt = run(cmd, cwd=COQ, timeout=timeout)
         failing = re.findall(r'File "\./([^"]+)", line (\d+)', out) if rc != 0 else []
-        return rc == 0, factmsg + out, failing
+        return rc == 0, out, failing
 
 
 def vo_ok(vfile):
